@@ -195,11 +195,11 @@ def st_tip906_transition():
                          C("frame", "same_but_coins(*final(next_state), *old(next_state))", "C20")])
 
 def mm_preseal():
-    return dict(requires=[C("inv", "state_inv(state)")],
+    return dict(requires=[C("inv", "state_inv(state) && pools_ok(state.pools@) && builtins_if_present(state)")],
                 ensures=[C("det", "res == spec_preseal(state)", det=True),
                          C("frame", "pool_phase_frame(state, res) && res.fee_pool == state.fee_pool", "C15", "C17", "C05"),
                          C("inv", "state_inv(res)", "C20"),
-                         C("builtins", "spec_builtin_pools(res)", "C16")])
+                         C("builtins", "spec_builtin_pools(res) && builtins_live(res) && pools_ok(res.pools@)", "C16")])
 def st_tip909():
     return dict(requires=[C("pools", "old(self).pools@.contains_key(pk_mel_sym()) && old(self).pools@.contains_key(pk_erg_sym())")],
                 ensures=[C("det", "*final(self) == spec_tip909(*old(self))", det=True),
@@ -208,7 +208,7 @@ def st_tip909():
 def smt_val_iter():
     return dict(ensures=[C("all", "res@.len() == self@.dom().len()", "C16")])
 def st_seal_full():
-    return dict(requires=[C("inv", "state_inv(self)"),
+    return dict(requires=[C("inv", "state_inv(self) && pools_ok(self.pools@) && builtins_if_present(self)"),
                           C("fits", "self.tips.0 <= u128::MAX - 0x1_0000_0000_0000_0000_0000_0000_0000u128", note="C09 envelope: pending tips below 2^128 - 2^112")],
                 ensures=[C("det", "res.0 == spec_seal(self, action)", det=True),
                          C("rel", "seal_rel(self, action, res.0) && res.1 == action", "C06", "C05", "C17"),
@@ -239,3 +239,10 @@ def cm_new_abs():
     return dict(ensures=[C("root", "spec_root_coins(res@) == HashVal(novasmt::root_of(inner@)) && res.wf()", "C07", "C08")])
 def smt_new():
     return dict(ensures=[C("root", "spec_root_smt(res@) == HashVal(novasmt::root_of(tree@))", "C07", "C08")])
+
+def mm_phase(name, extra_props=()):
+    """contract shared by process_swaps / process_deposits / process_withdrawals / process_pegging (pool-side phases of sealing)"""
+    return dict(requires=[C("inv", "state_inv(state) && builtins_live(state) && pools_ok(state.pools@)")],
+                ensures=[C("frame", "pool_phase_frame(state, res) && res.fee_pool == state.fee_pool", "C15", "C17", "C05"),
+                         C("inv", "state_inv(res) && pools_ok(res.pools@)", "C20", "C16"),
+                         C("builtins", "builtins_live(res) && (forall|k: PoolKey| state.pools@.contains_key(k) ==> #[trigger] res.pools@.contains_key(k))", "C16")])
